@@ -37,6 +37,7 @@ def keys_for(rng, uni, dims, k):
         out.append(dict(form="dict", entries=[["L", l1, ["single", uni[l1]["items"][0]]],
                                              ["L", l0, ["dim", subs[l0]]]]))
         out.append(dict(form="dict", entries=[["L", l0, ["list", [uni[l0]["items"][-1]]]], ["N", l1, ["dim", subs[l1]]]]))
+        out.append(dict(form="dict", entries=[["L", l0, ["single", uni[l0]["items"][0]]], ["L", l1, ["dim", subs[l1]]]]))   # single FIRST item, kept dims, subset
     return out
 
 
